@@ -3,15 +3,24 @@ import Operon.Model.Gates
   Model of `operon_ai/organelles/membrane.py :: Membrane` (C10).
 
   State mirrors the instance attributes: `signatures`, `_learned_patterns` (an insertion-ordered dict keyed
-  by the pattern text), `threshold`, `enable_adaptive`, `rate_limit`, `_request_times`, `_blocked_hashes`,
-  `_audit_log`, `_total_filtered`, `_total_blocked`.  Time is a `Nat` (microseconds); the window length is the
-  module constant (60 s) and reaches the driver through `Operon/Gen/GatesConsts.lean`.
+  by the pattern text), `threshold`, `enable_adaptive`, `rate_limit`, `on_threat`, `_request_times`,
+  `_blocked_hashes`, `_audit_log`, `_total_filtered`, `_total_blocked`.  Time is a `Nat` (microseconds); the window
+  length is the module constant (60 s) and reaches the driver through `Operon/Gen/GatesConsts.lean`.
+
+  The public configuration attributes are read by `filter` at decision time, so histories contain their direct
+  assignment (`m.rate_limit = …`, `m.threshold = …`, `m.enable_adaptive = …`, `m.on_threat = …`) besides the
+  methods.
+
+  `on_threat` is an adversary: a function of what it can observe through the public API at the moment it is
+  called (`HookView`: audit trail, statistics) and of the result it is handed; it returns (`none`) or raises
+  (`some cls`).  `filter` therefore yields the *decision* it took and, separately, the exception a hook raised
+  (in which case the caller receives no result, but the decision was taken and must be fully booked).
 
   `_blocked_hashes` holds the first 16 hex digits of sha256 of the UTF-8 encoding (lone surrogates are
-  passed through since the `fix:` commit); the model keeps the content itself — i.e. the hash prefix is treated as injective
-  on the strings explored (trusted-base item).
+  passed through since the `fix:` commit); the model keeps the content itself — i.e. the hash prefix is treated as
+  injective on the strings explored (trusted-base item).
 
-  Not modelled: `on_threat` callback, console output, `processing_time_ms`, descriptions.
+  Not modelled: console output, `processing_time_ms`, descriptions.
 -/
 namespace Operon.Gates
 
@@ -28,6 +37,17 @@ structure FilterRes where
   reason : Reason
   deriving Repr, DecidableEq
 
+/-- what a hook can read through `get_audit_log()` / `get_statistics()` while it runs -/
+structure HookView where
+  audit : List FilterRes
+  totalFiltered : Nat
+  totalBlocked : Nat
+  learned : Nat
+  blockedCount : Nat
+
+/-- an `on_threat` callback: returns (`none`) or raises an exception of class `cls` (`some cls`) -/
+abbrev Hook := HookView → FilterRes → Option String
+
 structure Membrane where
   sigs : List Sig
   learned : List Sig
@@ -35,12 +55,18 @@ structure Membrane where
   adaptive : Bool
   rateLimit : Option Nat
   window : Nat
+  onThreat : Option Hook
   reqTimes : List Nat
   blocked : List Str
   audit : List FilterRes
   totalFiltered : Nat
   totalBlocked : Nat
-  deriving Repr
+
+/-- outcome of one `filter` call: the decision taken, and the exception class raised by the `on_threat` hook
+    if it raised (then the caller gets the exception instead of the result) -/
+structure FilterOut where
+  decision : FilterRes
+  raised : Option String
 
 /-- `ThreatLevel.CRITICAL.value` -/
 def critical : Nat := 3
@@ -48,7 +74,17 @@ def critical : Nat := 3
 def Membrane.new (sigs : List Sig) (threshold : Nat) (adaptive : Bool) (rateLimit : Option Nat)
     (window : Nat) : Membrane :=
   { sigs := sigs, learned := [], threshold := threshold, adaptive := adaptive, rateLimit := rateLimit,
-    window := window, reqTimes := [], blocked := [], audit := [], totalFiltered := 0, totalBlocked := 0 }
+    window := window, onThreat := none, reqTimes := [], blocked := [], audit := [], totalFiltered := 0,
+    totalBlocked := 0 }
+
+def Membrane.view (m : Membrane) : HookView :=
+  ⟨m.audit, m.totalFiltered, m.totalBlocked, m.learned.length, m.blocked.length⟩
+
+/-- `if self.on_threat: self.on_threat(result)` -/
+def hookRaise (h : Option Hook) (v : HookView) (r : FilterRes) : Option String :=
+  match h with
+  | none => none
+  | some f => f v r
 
 /-- every signature a scan consults: innate + custom, then the learned ones in dict order -/
 def Membrane.active (m : Membrane) : List Sig := m.sigs ++ m.learned
@@ -56,7 +92,7 @@ def Membrane.active (m : Membrane) : List Sig := m.sigs ++ m.learned
 /-- `[t for t in self._request_times if t > now - 60]` (written without subtraction) -/
 def prune (window now : Nat) (ts : List Nat) : List Nat := ts.filter (fun t => t + window > now)
 
-/-- `_check_rate_limit`: (limited?, new `_request_times`) -/
+/-- `_check_rate_limit`: (limited?, new `_request_times`); reads the live `rate_limit` attribute -/
 def rateCheck (m : Membrane) (now : Nat) : Bool × List Nat :=
   match m.rateLimit with
   | none => (false, m.reqTimes)
@@ -71,40 +107,46 @@ def dictSet (d : List Sig) (s : Sig) : List Sig :=
 /-- `d.pop(p, None)` -/
 def dictPop (d : List Sig) (p : Str) : List Sig := d.filter (fun x => x.pat ≠ p)
 
+/-- state after a blocking scan decision `res` has been booked (audit, counter, immune memory) -/
+def Membrane.bookBlock (m : Membrane) (ts : List Nat) (c : Str) (res : FilterRes) : Membrane :=
+  { m with reqTimes := ts
+           blocked := c :: m.blocked
+           audit := m.audit ++ [res]
+           totalFiltered := m.totalFiltered + 1, totalBlocked := m.totalBlocked + 1 }
+
 /-- last part of `filter`: the decision once the scan produced `ms` with maximum `lvl`
-    (`ts` = the request list left by the rate check) -/
-def Membrane.decide (m : Membrane) (ts : List Nat) (c : Str) (ms : List Sig) (lvl : Nat) : Membrane × Out FilterRes :=
+    (`ts` = the request list left by the rate check).  A blocking decision is booked first; the `on_threat`
+    hook runs last and sees the booked state. -/
+def Membrane.decide (m : Membrane) (ts : List Nat) (c : Str) (ms : List Sig) (lvl : Nat) : Membrane × FilterOut :=
   if lvl < m.threshold then
     ({ m with reqTimes := ts
               audit := m.audit ++ [⟨true, lvl, ms, c, .scan⟩]
               totalFiltered := m.totalFiltered + 1 },
-     .ok ⟨true, lvl, ms, c, .scan⟩)
+     ⟨⟨true, lvl, ms, c, .scan⟩, none⟩)
   else
-    ({ m with reqTimes := ts
-              blocked := c :: m.blocked
-              audit := m.audit ++ [⟨false, lvl, ms, c, .scan⟩]
-              totalFiltered := m.totalFiltered + 1, totalBlocked := m.totalBlocked + 1 },
-     .ok ⟨false, lvl, ms, c, .scan⟩)
+    (m.bookBlock ts c ⟨false, lvl, ms, c, .scan⟩,
+     ⟨⟨false, lvl, ms, c, .scan⟩,
+      hookRaise m.onThreat (m.bookBlock ts c ⟨false, lvl, ms, c, .scan⟩).view ⟨false, lvl, ms, c, .scan⟩⟩)
 
 /-- `filter` after `_check_rate_limit` returned `rc` = (limited?, new request list): rate-limit exit, replay
     exit, or the scan over innate + custom + learned signatures -/
-def Membrane.afterRate (env : Env) (m : Membrane) (c : Str) (rc : Bool × List Nat) : Membrane × Out FilterRes :=
+def Membrane.afterRate (env : Env) (m : Membrane) (c : Str) (rc : Bool × List Nat) : Membrane × FilterOut :=
   if rc.1 then
     ({ m with reqTimes := rc.2
               audit := m.audit ++ [⟨false, critical, [], c, .rate⟩]
               totalFiltered := m.totalFiltered + 1, totalBlocked := m.totalBlocked + 1 },
-     .ok ⟨false, critical, [], c, .rate⟩)
+     ⟨⟨false, critical, [], c, .rate⟩, none⟩)
   else if c ∈ m.blocked then
     ({ m with reqTimes := rc.2
               audit := m.audit ++ [⟨false, critical, [], c, .replay⟩]
               totalFiltered := m.totalFiltered + 1, totalBlocked := m.totalBlocked + 1 },
-     .ok ⟨false, critical, [], c, .replay⟩)
+     ⟨⟨false, critical, [], c, .replay⟩, none⟩)
   else
     (fun ms => m.decide rc.2 c ms (maxLevel ms)) (matched env m.active c)
 
 /-- `Membrane.filter(signal)` at time `now` on content `c`.  (Since the `fix:` commit the hash is taken with
-    `surrogatepass`, so no input raises; the `Out` type keeps the possibility visible.) -/
-def Membrane.filter (env : Env) (m : Membrane) (now : Nat) (c : Str) : Membrane × Out FilterRes :=
+    `surrogatepass`; the only exception that can leave `filter` is one raised by the user's hook.) -/
+def Membrane.filter (env : Env) (m : Membrane) (now : Nat) (c : Str) : Membrane × FilterOut :=
   m.afterRate env c (rateCheck m now)
 
 /-- `learn_threat`: constructs the signature (compiling a regex may raise `re.error`), stores it only when
@@ -121,11 +163,21 @@ def Membrane.forget (m : Membrane) (p : Str) : Membrane := { m with learned := d
 def Membrane.importAb (m : Membrane) (abs : List Sig) : Membrane :=
   { m with learned := abs.foldl dictSet m.learned }
 
+/-- `set_threshold(t)` and the direct assignment `m.threshold = t` -/
 def Membrane.setThreshold (m : Membrane) (t : Nat) : Membrane := { m with threshold := t }
 
 def Membrane.addSig (m : Membrane) (s : Sig) : Membrane := { m with sigs := m.sigs ++ [s] }
 
 def Membrane.clearAudit (m : Membrane) : Membrane := { m with audit := [] }
+
+/-- `m.rate_limit = r` -/
+def Membrane.setRate (m : Membrane) (r : Option Nat) : Membrane := { m with rateLimit := r }
+
+/-- `m.enable_adaptive = b` -/
+def Membrane.setAdaptive (m : Membrane) (b : Bool) : Membrane := { m with adaptive := b }
+
+/-- `m.on_threat = h` -/
+def Membrane.setHook (m : Membrane) (h : Option Hook) : Membrane := { m with onThreat := h }
 
 /-! ### histories -/
 
@@ -138,16 +190,23 @@ inductive MOp where
   | addSig (s : Sig)
   | clearAudit
   | adv (d : Nat)
-  deriving Repr
+  | setRate (r : Option Nat)
+  | setAdaptive (b : Bool)
+  | setHook (h : Option Hook)
 
 structure MSt where
   m : Membrane
   now : Nat
 
-/-- one step of a history; the observation is the filter outcome, if the op was a filter call, stamped with
-    the time of the call -/
-def mstep (env : Env) (st : MSt) : MOp → MSt × Option (Nat × Out FilterRes)
-  | .filter c => (⟨(st.m.filter env st.now c).1, st.now⟩, some (st.now, (st.m.filter env st.now c).2))
+/-- what a history records about one filter call: when, the rate limit in force, the outcome -/
+structure MEv where
+  t : Nat
+  limit : Option Nat
+  out : FilterOut
+
+/-- one step of a history -/
+def mstep (env : Env) (st : MSt) : MOp → MSt × Option MEv
+  | .filter c => (⟨(st.m.filter env st.now c).1, st.now⟩, some ⟨st.now, st.m.rateLimit, (st.m.filter env st.now c).2⟩)
   | .learn s => (⟨(st.m.learn env s).1, st.now⟩, none)
   | .forget p => (⟨st.m.forget p, st.now⟩, none)
   | .importAb abs => (⟨st.m.importAb abs, st.now⟩, none)
@@ -155,9 +214,12 @@ def mstep (env : Env) (st : MSt) : MOp → MSt × Option (Nat × Out FilterRes)
   | .addSig s => (⟨st.m.addSig s, st.now⟩, none)
   | .clearAudit => (⟨st.m.clearAudit, st.now⟩, none)
   | .adv d => (⟨st.m, st.now + d⟩, none)
+  | .setRate r => (⟨st.m.setRate r, st.now⟩, none)
+  | .setAdaptive b => (⟨st.m.setAdaptive b, st.now⟩, none)
+  | .setHook h => (⟨st.m.setHook h, st.now⟩, none)
 
-/-- run a history: final state and the filter outcomes in order -/
-def mrun (env : Env) : MSt → List MOp → MSt × List (Nat × Out FilterRes)
+/-- run a history: final state and the filter events in order -/
+def mrun (env : Env) : MSt → List MOp → MSt × List MEv
   | st, [] => (st, [])
   | st, op :: ops =>
     ((mrun env (mstep env st op).1 ops).1, (mstep env st op).2.toList ++ (mrun env (mstep env st op).1 ops).2)
